@@ -14,17 +14,20 @@ package main
 import (
 	"fmt"
 	"math/big"
+	"strings"
 	"time"
 
 	sdkmath "cosmossdk.io/math"
 	abci "github.com/cometbft/cometbft/abci/types"
 	sdk "github.com/cosmos/cosmos-sdk/types"
+	banktypes "github.com/cosmos/cosmos-sdk/x/bank/types"
 	govv1 "github.com/cosmos/cosmos-sdk/x/gov/types/v1"
 	govv1beta1 "github.com/cosmos/cosmos-sdk/x/gov/types/v1beta1"
 	stakingtypes "github.com/cosmos/cosmos-sdk/x/staking/types"
 	"github.com/ethereum/go-ethereum/common"
 	"github.com/prysmaticlabs/prysm/v4/crypto/bls/blst"
 
+	"github.com/ExocoreNetwork/exocore/utils"
 	assetskeeper "github.com/ExocoreNetwork/exocore/x/assets/keeper"
 	assetstypes "github.com/ExocoreNetwork/exocore/x/assets/types"
 	avskeeper "github.com/ExocoreNetwork/exocore/x/avs/keeper"
@@ -91,6 +94,7 @@ func domLiveness(env *Env) error {
 			{"F-04b", scenarioF04b, "halt:slash-zero-value-operator"},
 			{"F-04b/abci", scenarioEvidenceJoined, "halt:evidence-joined-validator"},
 			{"F-11a", scenarioF11a, "halt:gov-tally-unimplemented"},
+			{"F-11h", scenarioF11h, "halt:gov-tally-zero-shares"},
 			{"F-11b", scenarioF11b, "halt:avs-empty-signature"},
 			{"F-11f", scenarioF11f, "halt:int64-out-of-bound"},
 			{"F-11g", scenarioF11g, "halt:dec-overflow"},
@@ -100,7 +104,9 @@ func domLiveness(env *Env) error {
 			env.Eval("C11.directed")
 			env.Report.Histories++
 			env.Outcome(fmt.Sprintf("directed.%s.halt=%v", sc.name, halt != ""))
-			if halt != "" {
+			if strings.HasPrefix(halt, "tally:") { // no halt, but the outcome of the tally is not what the votes say
+				env.Violate("C11.directed", "gov-tally-wrong", sc.name+": "+halt+" ["+note+"]", hist)
+			} else if halt != "" {
 				env.Violate("C11.directed", sc.sig, sc.name+": "+halt+" ["+note+"]", hist)
 			}
 		}
@@ -641,39 +647,145 @@ func scenarioEvidenceJoined(seed uint64) (string, string, []string) {
 	return r.Halt, note, hist
 }
 
-// F-11a: x/gov's EndBlocker tallies a proposal whose voting period ended; the tally asks the
-// staking keeper (= x/dogfood) for TotalBondedTokens, which panics "unimplemented on this keeper".
-func scenarioF11a(seed uint64) (string, string, []string) {
-	hist := []string{"f11a.reset", "f11a.delivertx gov.MsgSubmitProposal(text) with deposit >= min deposit", "f11a.blocks until voting period ends"}
-	c := NewChainFresh(DefaultCfg(seed))
+// govProposal submits a text proposal with the minimum deposit through a real DeliverTx and returns its id.
+func govProposal(c *Chain) (id uint64, note string, halt string) {
 	gp := c.App.GovKeeper.GetParams(c.Ctx)
 	dep := sdk.NewCoins(gp.MinDeposit...)
 	content := govv1beta1.NewTextProposal("t", "d")
 	legacy, err := govv1.NewLegacyContent(content, c.App.GovKeeper.GetGovernanceAccount(c.Ctx).GetAddress().String())
 	if err != nil {
-		return "", "legacy content: " + err.Error(), hist
+		return 0, "legacy content: " + err.Error(), ""
 	}
 	msg, err := govv1.NewMsgSubmitProposal([]sdk.Msg{legacy}, dep, c.Funded.Acc.String(), "", "title", "summary")
 	if err != nil {
-		return "", "msg: " + err.Error(), hist
+		return 0, "msg: " + err.Error(), ""
 	}
 	bz, err := signedTx(c, c.Funded, 3000000, msg)
 	if err != nil {
-		return "", "sign: " + err.Error(), hist
+		return 0, "sign: " + err.Error(), ""
 	}
 	r, h := c.DeliverRaw(bz)
 	if h != "" {
-		return h, "DeliverTx itself panicked", hist
+		return 0, "DeliverTx itself panicked", h
 	}
-	note := fmt.Sprintf("submit code=%d deposit=%s voting=%s", r.Code, dep.String(), gp.VotingPeriod.String())
+	note = fmt.Sprintf("submit code=%d deposit=%s voting=%s", r.Code, dep.String(), gp.VotingPeriod.String())
 	if r.Code != 0 {
-		return "", note + " log=" + tailStr(r.Log, 200), hist
+		return 0, note + " log=" + tailStr(r.Log, 200), ""
 	}
+	id, _ = c.App.GovKeeper.GetProposalID(c.Ctx)
+	return id - 1, note, ""
+}
+
+// govVote delivers a MsgVote of `a` (funding the account first if it has no balance for the fee).
+func govVote(c *Chain, a Actor, id uint64, opt govv1.VoteOption) (uint32, string) {
+	if c.App.BankKeeper.GetBalance(c.Ctx, a.Acc, utils.BaseDenom).Amount.IsZero() {
+		bz, err := signedTx(c, c.Funded, 300000, banktypes.NewMsgSend(c.Funded.Acc, a.Acc, sdk.NewCoins(sdk.NewCoin(utils.BaseDenom, sdkmath.NewIntWithDecimal(1, 18)))))
+		if err == nil {
+			if _, h := c.DeliverRaw(bz); h != "" {
+				return 0, h
+			}
+		}
+	}
+	bz, err := signedTx(c, a, 1000000, govv1.NewMsgVote(a.Acc, id, opt, ""))
+	if err != nil {
+		return 99, ""
+	}
+	r, h := c.DeliverRaw(bz)
+	return r.Code, h
+}
+
+// F-11a (repaired by fix-F-11a.patch; regression): x/gov's EndBlocker tallies a proposal whose voting
+// period ended; the tally asks the staking keeper (= x/dogfood) for TotalBondedTokens and IterateDelegations,
+// which used to panic "unimplemented on this keeper". Now: proposal + deposit, a Yes vote by a validator's
+// operator account, a No vote by an account without stake, voting period ends => the block is produced
+// and the tally is the validator's own power (101 of 201: quorum met, passed).
+func scenarioF11a(seed uint64) (string, string, []string) {
+	hist := []string{"f11a.reset", "f11a.delivertx gov.MsgSubmitProposal(text) with deposit >= min deposit",
+		"f11a.delivertx gov.MsgVote yes by operator[0] (validator, power 101 of 201)", "f11a.delivertx gov.MsgVote no by the funded account (no stake)",
+		"f11a.blocks until voting period ends"}
+	c := NewChainFresh(DefaultCfg(seed))
+	id, note, h := govProposal(c)
+	if h != "" || id == 0 {
+		return h, note, hist
+	}
+	c1, h := govVote(c, c.Operators[0], id, govv1.OptionYes)
+	if h != "" {
+		return h, note + " vote panicked", hist
+	}
+	c2, h := govVote(c, c.Funded, id, govv1.OptionNo)
+	if h != "" {
+		return h, note + " vote panicked", hist
+	}
+	note += fmt.Sprintf(" votes=%d,%d", c1, c2)
+	gp := c.App.GovKeeper.GetParams(c.Ctx)
 	step := *gp.VotingPeriod/3 + time.Second
 	for i := 0; i < 5; i++ {
 		if br := c.EndAndBegin(step); br.Halt != "" {
 			return br.Halt, note, hist
 		}
+	}
+	p, found := c.App.GovKeeper.GetProposal(c.Ctx, id)
+	if !found {
+		return "", note + " proposal gone (no halt)", hist
+	}
+	t := p.FinalTallyResult
+	note += fmt.Sprintf(" status=%s tally(yes=%s no=%s abstain=%s veto=%s) totalBonded=%s", p.Status, t.YesCount, t.NoCount, t.AbstainCount, t.NoWithVetoCount, c.App.StakingKeeper.TotalBondedTokens(c.Ctx))
+	want := sdk.TokensFromConsensusPower(c.Cfg.Powers[0], sdk.DefaultPowerReduction).String()
+	if c1 == 0 && (t.YesCount != want || t.NoCount != "0" || p.Status != govv1.StatusPassed) {
+		return "tally: expected yes=" + want + " no=0 and PASSED (101 of 201 voted yes)", note, hist
+	}
+	return "", note + " (no halt)", hist
+}
+
+// F-11h: the tally weighs a validator's vote as shares*tokens/shares with the DelegatorShares the
+// staking keeper reports. x/operator fills DelegatorShares from the operator's *current* USD value, which
+// is recomputed live once the operator has opted out: a validator that voted, then opted out and
+// undelegated everything, is still in the set (power applied at the last epoch) with DelegatorShares = 0,
+// and LegacyDec.Quo panics `division by zero` in the gov EndBlocker (before TotalBondedTokens is reached).
+func scenarioF11h(seed uint64) (string, string, []string) {
+	hist := []string{"f11h.reset dogfood epoch=week", "f11h.delivertx gov.MsgSubmitProposal(text) with deposit", "f11h.delivertx gov.MsgVote yes by operator[1] (validator)",
+		"f11h.operator[1] opts out of the dogfood AVS and undelegates its whole stake (keeper)", "f11h.blocks until voting period ends (same dogfood epoch)"}
+	cfg := DefaultCfg(seed)
+	cfg.EpochID = epochstypes.WeekEpochID
+	c := NewChainFresh(cfg)
+	id, note, h := govProposal(c)
+	if h != "" || id == 0 {
+		return h, note, hist
+	}
+	op := c.Operators[1]
+	code, h := govVote(c, op, id, govv1.OptionYes)
+	if h != "" {
+		return h, note + " vote panicked", hist
+	}
+	note += fmt.Sprintf(" vote=%d", code)
+	if br := c.EndAndBegin(time.Hour); br.Halt != "" {
+		return br.Halt, note, hist
+	}
+	err := c.CachedDo(func(ctx sdk.Context) error {
+		if err := c.App.OperatorKeeper.OptOut(ctx, op.Acc, c.AVSAddr); err != nil {
+			return fmt.Errorf("opt out: %w", err)
+		}
+		return c.App.DelegationKeeper.UndelegateFrom(ctx, &delegationtypes.DelegationOrUndelegationParams{
+			ClientChainID: c.LzID, Action: assetstypes.UndelegateFrom, AssetsAddress: common.HexToAddress(c.Cfg.Assets[0].Addr).Bytes(),
+			OperatorAddress: op.Acc, StakerAddress: op.Eth.Bytes(), OpAmount: sdkmath.NewIntWithDecimal(c.Cfg.Powers[1], int(c.Cfg.Assets[0].Decimals)),
+			LzNonce: 77, TxHash: common.BytesToHash(detBytes(seed, "f11h", 0))})
+	})
+	if err != nil {
+		return "", note + " setup: " + tailStr(err.Error(), 160), hist
+	}
+	if v := c.App.StakingKeeper.ValidatorByConsAddr(c.Ctx, c.ConsKeys[1].ToConsAddr()); v != nil {
+		note += " operator-reported shares=" + v.GetDelegatorShares().String()
+	}
+	gp := c.App.GovKeeper.GetParams(c.Ctx)
+	step := *gp.VotingPeriod/3 + time.Second
+	for i := 0; i < 4; i++ {
+		if br := c.EndAndBegin(step); br.Halt != "" {
+			return br.Halt, note, hist
+		}
+	}
+	if p, found := c.App.GovKeeper.GetProposal(c.Ctx, id); found {
+		t := p.FinalTallyResult
+		note += fmt.Sprintf(" status=%s yes=%s", p.Status, t.YesCount)
 	}
 	return "", note + " (no halt)", hist
 }
